@@ -154,6 +154,12 @@ theorem fix_subtracts_bin_for_bin_by_coordinate (tgt anti : List SRow) (ref : Li
         o.row.log2 = s.log2 - q.log2 + c :=
   doFix_bin_for_bin tgt anti ref cfg P outs h hpT hpA hks hnd
 
+/-- … and `fix` as a whole refuses a bin that occurs in BOTH sample tables (finding BA) -/
+theorem fix_rejects_bin_shared_by_both_tables (tgt anti : List SRow) (ref : List RRow) (cfg : FixCfg) (P : FixParams)
+    (r : SRow) (ht : r ∈ tgt) (a : SRow) (ha : a ∈ anti) (hk : sKey r = sKey a) :
+    doFix tgt anti ref cfg P = .error .dupSample :=
+  doFix_rejects_shared_bin tgt anti ref cfg P r ht a ha hk
+
 /-! non-vacuity -/
 example : edgeLoss 100 250 = 250 / 200 - (150 : Rat) ^ 2 / (2 * 250 * 100) := by decide +kernel
 example : weightOf true (1/2) 10 10 (1/100) = Generated.WEIGHT_REF_EMPHASIS * (3/4) + (1 - Generated.WEIGHT_REF_EMPHASIS) * (99/100) := by
